@@ -75,6 +75,16 @@ def gen_cases(tier, seed):
                     cases.append({"id": cid, "sig": [wrs, was, waors, layout, 0, corr, how, "kit", "backend:XMLSecurity"], "opts": [wrs, was, waors], "layout": layout,
                                   "enc": 0, "corr": corr, "maker": "kit", "how": how, "alg": "rsa-sha256", "backend": "XMLSecurity",
                                   "identity": gen.identity(random.Random("%s/%s" % (seed, cid)))})
+    # the same requirements at the client's other response entry points (answers to attribute and authentication queries, over SOAP): what the
+    # SP wants signed does not depend on which question the response answers
+    for entry in ("attribute_query_response", "authn_query_response"):
+        for wrs, was, waors in itertools.product((0, 1), repeat=3):
+            for layout in ("none", "R", "A", "RA"):
+                for corr in ("valid", "content-edited"):
+                    cid = "o%d%d%d-%s-plain-%s-idp-via-%s" % (wrs, was, waors, layout, corr, entry)
+                    cases.append({"id": cid, "sig": [wrs, was, waors, layout, 0, corr, "", "idp", "via:" + entry], "opts": [wrs, was, waors], "layout": layout, "enc": 0,
+                                  "corr": corr, "maker": "idp", "how": "", "alg": "rsa-sha1", "entry": entry,
+                                  "identity": gen.identity(random.Random("%s/%s" % (seed, cid)))})
     # the class of the configuration object the client is built from (SPConfig, plain Config, IdPConfig for an entity that is both)
     for cc in ("Config", "IdPConfig"):
         for wrs, was, waors in itertools.product((0, 1), repeat=3):
@@ -246,6 +256,8 @@ def expected_accept(case):
         return False          # no key to verify the present signature with
     if case.get("spenc"):
         return False          # no assertion the SP could have looked at
+    if case.get("entry"):
+        return ok and (case["corr"] == "valid" or case["layout"] == "none")
     return ok and case["corr"] == "valid"
 
 
@@ -257,7 +269,21 @@ def run_case(case, ctx):
         return {"outcome": "HARNESS-ERROR", "error": "the SP was not built with the %s backend but with %s" % (case["backend"], type(sp.sec.crypto).__name__)}
     xml, rid, aid = build_message(case, idp)
     ctx.mark()
-    resp, exc = fed.deliver(sp, xml, dict(OUT))
+    if case.get("entry"):
+        from saml2_tophat import BINDING_SOAP
+        if case["corr"] == "content-edited":
+            # (after signing: whatever signature is there no longer matches)
+            d0 = xk.Doc(xml)
+            av = d0.find(xk.SAML, "AttributeValue")[0]
+            xml = d0.set_text(av, "edited-" + d0.inner(av).decode("utf-8")).text()
+        body = xml[xml.index("?>") + 2:] if xml.startswith("<?xml") else xml
+        wire = '<ns0:Envelope xmlns:ns0="http://schemas.xmlsoap.org/soap/envelope/"><ns0:Body>%s</ns0:Body></ns0:Envelope>' % body
+        try:
+            resp, exc = getattr(sp, "parse_" + case["entry"])(wire, BINDING_SOAP), None
+        except Exception as exc_:
+            resp, exc = None, exc_
+    else:
+        resp, exc = fed.deliver(sp, xml, dict(OUT))
     evs = [e for e in ctx.events() if not e.get("case", "").startswith("harness:")]
     accepted = resp is not None and exc is None
     want = expected_accept(case)
@@ -290,7 +316,8 @@ def run_case(case, ctx):
             viol.append({"key": "C02/accepted-without-verify-event",
                          "what": "accepted, assertion signature present but no genuine OK verify for %s" % aid})
         exp_ava = gen.expected_ava(case["identity"])
-        if ident.get("ava") != exp_ava:
+        # (an authentication-query response is not read for attributes)
+        if ident.get("ava") != exp_ava and case["corr"] != "content-edited" and case.get("entry") != "authn_query_response":
             viol.append({"key": "C02/accepted-identity-differs", "what": "ava %r != %r" % (ident.get("ava"), exp_ava)})
     import saml2_tophat.sigver as sv
     sig_reject = exc is not None and isinstance(exc, sv.SigverError)
